@@ -37,7 +37,7 @@ def custom_items(src):
         gen = "<%s>" % ", ".join(src["tparams"])
     return ("#[derive(Debug, Clone, PartialEq, Eq)]\npub enum CErr { Bad }\n"
             "impl ::core::fmt::Display for CErr { fn fmt(&self, f: &mut ::core::fmt::Formatter<'_>) -> ::core::fmt::Result { write!(f, \"bad\") } }\n"
-            "fn cval%s(_v: %s) -> Result<(), CErr> { Ok(()) }\n" % (gen, arg))
+            "const fn cval%s(_v: %s) -> Result<(), CErr> { Ok(()) }\n" % (gen, arg))
 
 
 def render_val_item(src, it, items, consts):
@@ -86,7 +86,10 @@ def default_src(src, kind):
     return "vec![1]" if valid else "vec![]"
 
 
-def render_src(src):
+NOSTD_PRELUDE = "#![allow(unused, non_snake_case, non_camel_case_types, dead_code, clippy::all)]\nuse nutype::nutype;\nuse alloc::vec;\nuse alloc::vec::Vec;\nuse alloc::string::String;\n"
+
+
+def render_src(src, nostd=False):
     """-> Rust source of one module file holding the declaration."""
     items, consts, parts = [], [], []
     for b in src["blocks"]:
@@ -126,7 +129,7 @@ def render_src(src):
     else:
         body = "pub enum %s { A }" % name
     outer = {"": "", "derive": "#[derive(Debug)]\n", "foreign": "#[repr(transparent)]\n", "doc": "/// documented\n"}[src["outer"]]
-    out = PRELUDE + "\n".join(consts + items) + "\n"
+    out = (NOSTD_PRELUDE if nostd else PRELUDE) + "\n".join(consts + items) + "\n"
     out += "#[nutype(\n    %s\n)]\n%s%s\n" % (",\n    ".join(parts), outer, body)
     return out
 
